@@ -22,9 +22,13 @@ from concurrent.futures import ThreadPoolExecutor
 
 ROOT = os.path.dirname(os.path.dirname(os.path.abspath(__file__)))
 PY = os.path.join(ROOT, '.venv', 'bin', 'python')
-GEN = os.path.join(ROOT, '.gen')
-REPLAYS = os.path.join(ROOT, 'replays')
-EVIDENCE = os.path.join(ROOT, 'evidence')
+# VF_SCRATCH relocates generated files (used only by tools/ when several trees are checked in parallel);
+# VF_REPO (see ./check) points the interpreter at another checkout of asyncssh than /repo.
+_SCRATCH = os.environ.get('VF_SCRATCH') or ROOT
+REPO = os.environ.get('VF_REPO') or '/repo'
+GEN = os.path.join(_SCRATCH, '.gen')
+REPLAYS = os.path.join(_SCRATCH, 'replays')
+EVIDENCE = os.path.join(_SCRATCH, 'evidence')
 FINDINGS = os.path.join(ROOT, 'known_findings.jsonl')
 
 
@@ -370,7 +374,7 @@ REPLAY_TMPL = '''#!/usr/bin/env python3
 import os, sys
 os.environ['VF_REPLAY'] = '1'
 sys.path.insert(0, %(root)r)
-sys.path.insert(0, '/repo')
+sys.path.insert(0, os.environ.get('VF_REPO') or '/repo')
 KW = %(kw)r
 from props.%(prop)s import %(fn)s as h
 from vf.rt import AssumptionFailed
@@ -522,7 +526,7 @@ def fq(f):
     try:
         src = inspect.getsourcefile(f)
         _, line = inspect.getsourcelines(f)
-        return '%s.%s (%s:%d)' % (f.__module__, f.__qualname__, os.path.relpath(src, '/repo'), line)
+        return '%s.%s (%s:%d)' % (f.__module__, f.__qualname__, os.path.relpath(src, REPO), line)
     except Exception:
         return repr(f)
 
